@@ -157,26 +157,62 @@ func GenCase16(r *lib.RNG) Case16 {
 				ig.Event.Inputs = append(ig.Event.Inputs, dig.Input{Name: fmt.Sprintf("i%d", k), Type: t})
 				k++
 			}
-			if r.Chance(1, 3) {
+			// components of a tuple / tuple[] input: the tuple itself never has a column
+			comps := func(prefix string) []dig.Input {
+				var cs []dig.Input
+				for j := 0; j < 1+r.Intn(3); j++ {
+					t := []string{"address", "uint256", "bool", "bytes32"}[r.Intn(4)]
+					cs = append(cs, dig.Input{Name: fmt.Sprintf("%s_%d", prefix, j), Type: t})
+				}
+				return cs
+			}
+			if r.Chance(1, 4) {
+				nm := fmt.Sprintf("i%d", k)
+				ig.Event.Inputs = append(ig.Event.Inputs, dig.Input{Name: nm, Type: "tuple", Components: comps(nm)})
+				k++
+				feat["tuple-components"] = true
+			}
+			switch r.Intn(6) {
+			case 0, 1:
 				ig.Event.Inputs = append(ig.Event.Inputs, dig.Input{Name: fmt.Sprintf("i%d", k), Type: "uint256[]"})
+			case 2, 3:
+				nm := fmt.Sprintf("i%d", k)
+				ig.Event.Inputs = append(ig.Event.Inputs, dig.Input{Name: nm, Type: "tuple[]", Components: comps(nm)})
+				feat["tuple-array-components"] = true
 			}
 			if len(ig.Event.Inputs) == 0 {
 				ig.Event.Inputs = append(ig.Event.Inputs, dig.Input{Indexed: true, Name: "i0", Type: "address"})
 			}
+			// selection: everything with probability 3/4; or components only; or the
+			// tuple-free siblings only
+			mode := r.Intn(4) // 0,1: mixed; 2: components only; 3: siblings only
 			sel := 0
 			for j := range ig.Event.Inputs {
-				if r.Chance(3, 4) {
-					ig.Event.Inputs[j].Column = "c_" + ig.Event.Inputs[j].Name
+				in := &ig.Event.Inputs[j]
+				if len(in.Components) > 0 {
+					for q := range in.Components {
+						if mode != 3 && r.Chance(3, 4) {
+							in.Components[q].Column = "c_" + in.Components[q].Name
+							sel++
+						}
+					}
+					continue
+				}
+				if mode != 2 && r.Chance(3, 4) {
+					in.Column = "c_" + in.Name
 					sel++
 				}
 			}
 			if sel == 0 {
-				ig.Event.Inputs[0].Column = "c_" + ig.Event.Inputs[0].Name
-			}
-			for _, in := range ig.Event.Inputs {
-				if in.Column != "" {
-					addCol(in.Column, colType(in.Type))
+				in := &ig.Event.Inputs[len(ig.Event.Inputs)-1]
+				if len(in.Components) > 0 {
+					in.Components[0].Column = "c_" + in.Components[0].Name
+				} else {
+					in.Column = "c_" + in.Name
 				}
+			}
+			for _, in := range ig.Event.Selected() {
+				addCol(in.Column, colType(in.Type))
 			}
 			fields = subset(r, logFields, 0)
 		case "tx":
@@ -394,7 +430,11 @@ func encodeLog(r *lib.RNG, ev dig.Event, arrLen int) ([]eth.Bytes, []byte) {
 	var head, tail []byte
 	headSize := 0
 	for _, in := range ev.Inputs {
-		if !in.Indexed {
+		switch {
+		case in.Indexed:
+		case in.Type == "tuple":
+			headSize += 32 * len(in.Components)
+		default:
 			headSize += 32
 		}
 	}
@@ -412,10 +452,25 @@ func encodeLog(r *lib.RNG, ev dig.Event, arrLen int) ([]eth.Bytes, []byte) {
 		}
 		return w
 	}
+	tupleWords := func(in dig.Input) []byte {
+		var out []byte
+		for _, c := range in.Components {
+			out = append(out, val(c.Type)...)
+		}
+		return out
+	}
 	for _, in := range ev.Inputs {
 		switch {
 		case in.Indexed:
 			topics = append(topics, val(in.Type))
+		case in.Type == "tuple":
+			head = append(head, tupleWords(in)...)
+		case in.Type == "tuple[]":
+			head = append(head, word(uint64(headSize+len(tail)))...)
+			tail = append(tail, word(uint64(arrLen))...)
+			for i := 0; i < arrLen; i++ {
+				tail = append(tail, tupleWords(in)...)
+			}
 		case strings.HasSuffix(in.Type, "[]"):
 			head = append(head, word(uint64(headSize+len(tail)))...)
 			tail = append(tail, word(uint64(arrLen))...)
@@ -507,8 +562,8 @@ func abstractBlocks(cs Case16, ig shconfig.Integration) string {
 		if in.Indexed {
 			nIdx++
 		}
-		if strings.HasSuffix(in.Type, "[]") && in.Column != "" {
-			arrSel = true
+		if strings.HasSuffix(in.Type, "[]") && len((dig.Event{Inputs: []dig.Input{in}}).Selected()) > 0 {
+			arrSel = true // the array itself, or components of its element tuple, are selected
 		}
 	}
 	var bs []string
